@@ -27,12 +27,42 @@ def i32(opt, v):
     return [opt, "i32", v]
 
 
-def run_scenarios(ctx, scenarios, tag, timeout=1800):
-    path = os.path.join(ctx.work, "sc_%s.jsonl" % tag)
-    out = os.path.join(ctx.work, "sc_%s.out" % tag)
-    vlib.write_jsonl(path, scenarios)
-    vlib.vh(["sock", path, out], timeout=timeout, env={"VERIF_SEED": str(ctx.seed)})
-    res = [json.loads(l) for l in open(out) if l.strip()]
+def run_scenarios(ctx, scenarios, tag, timeout=1800, jobs=1):
+    """Run scenarios with `vh sock`. jobs > 1 runs several harness processes side by side (only for
+    scenarios whose oracles do not depend on timing)."""
+    import subprocess
+    if jobs <= 1 or len(scenarios) < 2 * jobs:
+        path = os.path.join(ctx.work, "sc_%s.jsonl" % tag)
+        out = os.path.join(ctx.work, "sc_%s.out" % tag)
+        vlib.write_jsonl(path, scenarios)
+        vlib.vh(["sock", path, out], timeout=timeout, env={"VERIF_SEED": str(ctx.seed)})
+        res = [json.loads(l) for l in open(out) if l.strip()]
+    else:
+        chunks = [scenarios[i::jobs] for i in range(jobs)]
+        procs = []
+        for j, ch in enumerate(chunks):
+            path = os.path.join(ctx.work, "sc_%s_%d.jsonl" % (tag, j))
+            out = os.path.join(ctx.work, "sc_%s_%d.out" % (tag, j))
+            vlib.write_jsonl(path, ch)
+            env = dict(os.environ)
+            env["VERIF_SEED"] = str(ctx.seed)
+            procs.append((subprocess.Popen([vlib.VH, "sock", path, out], cwd=vlib.WORK, env=env, stdout=subprocess.PIPE, stderr=subprocess.STDOUT), out, len(ch)))
+        parts = []
+        for p, out, n in procs:
+            try:
+                so, _ = p.communicate(timeout=timeout)
+            except subprocess.TimeoutExpired:
+                p.kill()
+                raise vlib.ToolError("vh sock timed out")
+            if p.returncode != 0:
+                raise vlib.ToolError("vh sock failed rc=%d: %s" % (p.returncode, so.decode(errors="replace")[-400:]))
+            parts.append([json.loads(l) for l in open(out) if l.strip()])
+        res = [None] * len(scenarios)
+        for j, part in enumerate(parts):
+            for k, r in enumerate(part):
+                res[j + k * jobs] = r
+        if any(r is None for r in res):
+            raise vlib.ToolError("vh sock returned too few results")
     if len(res) != len(scenarios):
         raise vlib.ToolError("vh sock returned %d results for %d scenarios" % (len(res), len(scenarios)))
     ctx.traces += len(res)
